@@ -161,6 +161,9 @@ def _run_pdy(ctx):
     res.rule("D-global", "no function mutates a module-level object in place")
     res.rule("D-default", "no parameter that a function stores into (directly or through a callee) has a mutable default value: a default is one object shared by "
                           "every call that omits the argument, i.e. hidden state between calls")
+    res.rule("D-uninit", "an array created with np.empty / np.empty_like (not zero-sized) is written completely - a whole-array store, a permutation scatter, .fill(), "
+                         "or a loop that stores into it on every path of every iteration - before it is read: its initial content is whatever the allocator returns")
+    _uninit(ctx)
     from .c15 import _mutable_defaults
     from .common import RuleCtx as _RC
     _mutable_defaults(_RC(ctx), rule="D-default", modules=None, need_one=True)
@@ -229,3 +232,143 @@ def _run_pdy(ctx):
             res.ok("control", fn, f"{got} '{kind}' event(s) reported as required")
     res.analysed["public_functions"] = npub
     res.require_instances("P-write (public functions analysed)", npub, 100)
+
+
+
+def _uninit(ctx):
+    """D-uninit: reads of np.empty(...) storage that some path has not written."""
+    res = ctx.result
+    lk = ctx.linker
+    np_ = deps.import_dep("numpy")
+    n_sites = 0
+    for mod in ctx.repo.package_modules():
+        for fi in mod.all_functions:
+            for st in ast.walk(fi.node):
+                if not (isinstance(st, ast.Assign) and len(st.targets) == 1 and isinstance(st.targets[0], ast.Name) and isinstance(st.value, ast.Call)):
+                    continue
+                r = lk.resolve(mod, st.value.func)
+                if not (r.kind == "dep" and r.obj in (getattr(np_, "empty", None), getattr(np_, "empty_like", None))):
+                    continue
+                shape = st.value.args[0] if st.value.args else None
+                if isinstance(shape, ast.Tuple) and any(isinstance(e_, ast.Constant) and e_.value == 0 for e_ in shape.elts):
+                    continue            # zero-sized: nothing uninitialised
+                if isinstance(shape, ast.Constant) and shape.value == 0:
+                    continue
+                n_sites += 1
+                X = st.targets[0].id
+                bad = _first_uninit_read(mod, fi, st, X)
+                if bad is None:
+                    res.ok("D-uninit", f"{fi.qualname}:{X}", "completely written before it is read")
+                else:
+                    res.violation("D-uninit", mod, fi.name, bad,
+                                  f"'{X}' is allocated with {ast.unparse(st.value.func)} and read here although on some path not every element has been written: "
+                                  "the result depends on stale memory (different answers for identical arguments)", ast.unparse(bad)[:100] if hasattr(bad, "lineno") else X,
+                                  f"np.zeros(...) or a store into every element of {X} on every path", construct=f"uninitialised {X}")
+    res.analysed["np_empty_sites"] = n_sites
+
+
+def _store_root(t):
+    while isinstance(t, ast.Subscript):
+        t = t.value
+    return t.id if isinstance(t, ast.Name) else None
+
+
+def _all_paths_store(stmts, X: str) -> bool:
+    for s_ in stmts:
+        if isinstance(s_, (ast.Assign, ast.AugAssign)):
+            tg = s_.targets if isinstance(s_, ast.Assign) else [s_.target]
+            if any(isinstance(t_, ast.Subscript) and _store_root(t_) == X for t_ in tg):
+                return True
+        if isinstance(s_, ast.If) and s_.orelse and _all_paths_store(s_.body, X) and _all_paths_store(s_.orelse, X):
+            return True
+    return False
+
+
+def _reads(node, X: str):
+    """Name nodes that read X inside `node`, except as the base of a store target."""
+    skip = set()
+    for n in ast.walk(node):
+        if isinstance(n, (ast.Assign, ast.AugAssign)):
+            for t_ in (n.targets if isinstance(n, ast.Assign) else [n.target]):
+                b_ = t_
+                while isinstance(b_, ast.Subscript):
+                    b_ = b_.value
+                if isinstance(b_, ast.Name) and isinstance(t_, ast.Subscript):
+                    skip.add(id(b_))
+    return [n for n in ast.walk(node) if isinstance(n, ast.Name) and n.id == X and isinstance(n.ctx, ast.Load) and id(n) not in skip]
+
+
+def _scan(stmts, X: str, init: bool, argsort_names: set):
+    """(state after the statements, first offending read or None, tracking stopped?)."""
+    for s_ in stmts:
+        if isinstance(s_, ast.Assign) and any(isinstance(t_, ast.Name) and t_.id == X for t_ in s_.targets):
+            rd = _reads(s_.value, X)
+            if rd and not init:
+                return init, rd[0], True
+            return True, None, True                       # re-bound: no longer the np.empty storage
+        if isinstance(s_, ast.Assign) and any(isinstance(t_, ast.Subscript) and _store_root(t_) == X for t_ in s_.targets):
+            t_ = [t_ for t_ in s_.targets if isinstance(t_, ast.Subscript)][0]
+            sl = t_.slice
+            whole = (isinstance(sl, ast.Slice) and sl.lower is None and sl.upper is None) or (isinstance(sl, ast.Constant) and sl.value is Ellipsis) \
+                or (isinstance(sl, ast.Name) and sl.id in argsort_names and isinstance(t_.value, ast.Name))
+            rd = _reads(s_.value, X)
+            if rd and not init:
+                return init, rd[0], False
+            if whole:
+                init = True
+            continue
+        if isinstance(s_, ast.Expr) and isinstance(s_.value, ast.Call) and isinstance(s_.value.func, ast.Attribute) and s_.value.func.attr == "fill" \
+                and isinstance(s_.value.func.value, ast.Name) and s_.value.func.value.id == X:
+            init = True
+            continue
+        if isinstance(s_, (ast.For, ast.While)):
+            if not init:
+                rd = [n for b_ in s_.body for n in _reads(b_, X)]
+                if rd:
+                    return init, rd[0], False
+                if isinstance(s_, ast.For) and _all_paths_store(s_.body, X):
+                    init = True
+            continue
+        if isinstance(s_, ast.If):
+            rd = _reads(s_.test, X)
+            if rd and not init:
+                return init, rd[0], False
+            i1, b1, st1 = _scan(s_.body, X, init, argsort_names)
+            if b1 is not None:
+                return init, b1, False
+            i2, b2, st2 = _scan(s_.orelse, X, init, argsort_names)
+            if b2 is not None:
+                return init, b2, False
+            init = i1 and i2
+            continue
+        rd = _reads(s_, X)
+        if rd and not init:
+            return init, rd[0], False
+    return init, None, False
+
+
+def _first_uninit_read(mod, fi, creation, X: str):
+    argsort_names = {t_.id for n in ast.walk(fi.node) if isinstance(n, ast.Assign) and isinstance(n.value, ast.Call)
+                     and ((isinstance(n.value.func, ast.Attribute) and n.value.func.attr == "argsort")) for t_ in n.targets if isinstance(t_, ast.Name)}
+    cur = creation
+    init = False
+    while cur is not fi.node:
+        parent = mod.parent(cur)
+        if parent is None:
+            break
+        block = None
+        for fld in ("body", "orelse", "finalbody"):
+            b_ = getattr(parent, fld, None)
+            if isinstance(b_, list) and any(x is cur for x in b_):
+                block = b_
+        if block is None:
+            cur = parent
+            continue
+        k = [i for i, x in enumerate(block) if x is cur][0]
+        init, bad, stop = _scan(block[k + 1:], X, init, argsort_names)
+        if bad is not None:
+            return bad
+        if stop or isinstance(parent, (ast.For, ast.While, ast.FunctionDef)):
+            return None
+        cur = parent
+    return None
